@@ -17,6 +17,7 @@ from ..prng import sub
 from .c01 import draw_fmt, fmt_tag
 
 ID = "C09"
+PROBES = ['orders_executed']  # reach probes: counters that must be non-zero in a run (a zero is printed and recorded)
 LEVEL = "exploration"
 BUDGET = {"quick": 320, "thorough": 20000}
 WALL = {"quick": 300, "thorough": 3400}
